@@ -41,6 +41,10 @@ STACKS_PARTS = [[[3, 0]], [[3, 1]], [[3, 0], 2], [[3, 0], 1], [[3, 1], 2, [3, 0]
 
 
 # ---------------------------------------------------------------- reference (from the property text)
+# the reference for one name: c13.impl() sets it (BibTeX's own von test for the verdict, the in-house rule to tell K14)
+PARSE = nc.spec_parse
+
+
 def P(d):
     return {"parts": [list(d["first"]), list(d["von"]), list(d["last"]), list(d["jr"])]}
 
@@ -82,7 +86,7 @@ def ref_step(m, v):
             return ("ill",)
         out = []
         for n in v:
-            d = nc.spec_parse(n)
+            d = PARSE(n)
             if d is None:
                 return ("invalid", n)
             out.append(P(d))
